@@ -14,15 +14,15 @@ def main(run):
     bounds = [('A', 4, 2, 2), ('B2', 3, 2, 2), ('B1', 3, 2, 2)] if quick else [('A', 5, 2, 2), ('B1', 4, 3, 3), ('B2', 4, 2, 2), ('K', 4, 3, 3)]
     rng = random.Random(run.seed)
     trees, _ = F.model_phase(run, bounds, ['InvC04'])
-    trees = F.cap(trees, 5000 if quick else 150000, rng, run)
+    trees = F.cap(trees, 5000 if quick else 40000, rng, run)
     deep = lambda t: any(c['ch'] for c in t['ch'])  # noqa: E731
-    items = [{'t': t, 'cfgs': F.rotate_cfgs(i, rng, 2 if quick else 6), 'eps': EPS} for i, t in enumerate(trees)]
+    items = [{'t': t, 'cfgs': F.rotate_cfgs(i, rng, 2 if quick else 3), 'eps': EPS} for i, t in enumerate(trees)]
     for t in trees:
         if deep(t):
             run.nontrivial.add(F.tree_key(t))
     run.evaluations += F.drive_and_judge(run, 's2c', items, ['flatten', 'acclaws'])
-    rt = F.random_trees(run.seed + 3, 2000 if quick else 30000)
-    items = [{'t': t, 'cfgs': F.rotate_cfgs(i, rng, 2 if quick else 4), 'eps': EPS} for i, t in enumerate(rt)]
+    rt = F.random_trees(run.seed + 3, 2000 if quick else 12000)
+    items = [{'t': t, 'cfgs': F.rotate_cfgs(i, rng, 2 if quick else 3), 'eps': EPS} for i, t in enumerate(rt)]
     for t in rt:
         if deep(t):
             run.nontrivial.add(F.tree_key(t))
